@@ -5,6 +5,7 @@ package main
 import (
 	"fmt"
 	"go/token"
+	"go/types"
 	"sort"
 	"strings"
 
@@ -357,6 +358,47 @@ func c12OwnerRefFilter(r *Run, e *Effect, oldDSKey string, record bool) bool {
 	stores := 0
 	okAll := true
 	why := ""
+	guardedAppend := func(ap *ssa.Call) bool {
+		guarded := false
+		for _, f := range ff.At(ap.Block()) {
+			if !f.Pol {
+				continue
+			}
+			sets, okFlag := r.Prog.trueAlternatives(fn, f.V, ap.Block(), 0)
+			if !okFlag || len(sets) == 0 {
+				continue
+			}
+			all := true
+			for _, s := range sets {
+				kindOK := s.any(true, func(v ssa.Value, _ string) bool {
+					return isEqCompare(v, loadOfPath(nil, "Kind"), isConstStringVal("DaemonSet"))
+				})
+				nameOK := s.any(true, func(v ssa.Value, _ string) bool {
+					return isEqCompare(v, loadOfPath(nil, "Name"), func(x ssa.Value) bool {
+						return r.Prog.dependsOnIP(x, func(y ssa.Value) bool {
+							ex, isE := y.(*ssa.Extract)
+							if !isE {
+								return false
+							}
+							l, isL := ex.Tuple.(*ssa.Lookup)
+							if !isL {
+								return false
+							}
+							s, okc := constString(l.Index)
+							return okc && s == oldDSKey
+						})
+					})
+				})
+				if !kindOK || !nameOK {
+					all = false
+				}
+			}
+			if all {
+				guarded = true
+			}
+		}
+		return guarded
+	}
 	for _, b := range fn.Blocks {
 		for _, in := range b.Instrs {
 			st, ok := in.(*ssa.Store)
@@ -374,45 +416,7 @@ func c12OwnerRefFilter(r *Run, e *Effect, oldDSKey string, record bool) bool {
 				why = "Items replaced by a value that is not built by append"
 			}
 			for _, ap := range apps {
-				guarded := false
-				for _, f := range ff.At(ap.Block()) {
-					if !f.Pol {
-						continue
-					}
-					sets, okFlag := r.Prog.trueAlternatives(fn, f.V, ap.Block(), 0)
-					if !okFlag || len(sets) == 0 {
-						continue
-					}
-					all := true
-					for _, s := range sets {
-						kindOK := s.any(true, func(v ssa.Value, _ string) bool {
-							return isEqCompare(v, loadOfPath(nil, "Kind"), isConstStringVal("DaemonSet"))
-						})
-						nameOK := s.any(true, func(v ssa.Value, _ string) bool {
-							return isEqCompare(v, loadOfPath(nil, "Name"), func(x ssa.Value) bool {
-								return r.Prog.dependsOnIP(x, func(y ssa.Value) bool {
-									ex, isE := y.(*ssa.Extract)
-									if !isE {
-										return false
-									}
-									l, isL := ex.Tuple.(*ssa.Lookup)
-									if !isL {
-										return false
-									}
-									s, okc := constString(l.Index)
-									return okc && s == oldDSKey
-								})
-							})
-						})
-						if !kindOK || !nameOK {
-							all = false
-						}
-					}
-					if all {
-						guarded = true
-					}
-				}
-				if !guarded {
+				if !guardedAppend(ap) {
 					okAll = false
 					why = "an element is appended to the kept pods without the owner-reference test (Kind==\"DaemonSet\" ∧ Name==old-daemonset annotation)"
 				}
@@ -420,8 +424,9 @@ func c12OwnerRefFilter(r *Run, e *Effect, oldDSKey string, record bool) bool {
 		}
 	}
 	if stores == 0 {
-		okAll = false
-		why = "listed pods are not filtered by owner reference"
+		// second shape: the listed object stays local and its items leave the function only by
+		// being appended, one by one, to another list under the owner-reference test
+		okAll, why = c12ItemsLeaveOnlyFiltered(fn, listObj, guardedAppend)
 	}
 	if record {
 		r.Check("C12.R3", "owner-reference filter of listed pods", r.Prog.Pos(e.Call.Pos()), shortFunc(fn),
@@ -591,6 +596,15 @@ func c12OwnerLookup(r *Run, effs []*Effect, reach map[*ssa.Function]bool) {
 				kindOK := p.Has(true, func(v ssa.Value, _ string) bool {
 					return isEqCompare(v, loadOfPath(nil, "Kind"), isConstStringVal("ExtendedDaemonSet"))
 				})
+				if !kindOK {
+					// `i := slices.IndexFunc(refs, pred); return refs[i].Name`: the element at the found
+					// index satisfies pred, so pred's true-alternatives are facts about it
+					kindOK = foundElementSatisfies(r.Prog, lookup, res, func(fs factSet) bool {
+						return fs.any(true, func(v ssa.Value, _ string) bool {
+							return isEqCompare(v, loadOfPath(nil, "Kind"), isConstStringVal("ExtendedDaemonSet"))
+						})
+					})
+				}
 				if !isRefName || !kindOK {
 					good = false
 					why = "returns " + pathString(res) + " on path [" + shortFacts(p) + "]"
@@ -604,4 +618,135 @@ func c12OwnerLookup(r *Run, effs []*Effect, reach map[*ssa.Function]bool) {
 				"owner name is returned only from a reference with Kind==\"ExtendedDaemonSet\"", good, why)
 		}
 	}
+}
+
+// c12ItemsLeaveOnlyFiltered: the list object does not escape fn (it is only handed to List and read
+// through its Items field), and every append whose appended element comes from its Items is
+// accepted by guarded; at least one such append exists.
+func c12ItemsLeaveOnlyFiltered(fn *ssa.Function, listObj ssa.Value, guarded func(*ssa.Call) bool) (bool, string) {
+	fromItems := func(v ssa.Value) bool {
+		return dependsOn(v, func(x ssa.Value) bool {
+			u, ok := x.(*ssa.UnOp)
+			if !ok || u.Op != token.MUL {
+				return false
+			}
+			fa, ok := u.X.(*ssa.FieldAddr)
+			return ok && fieldName(fa) == "Items" && unwrap(fa.X) == listObj
+		})
+	}
+	// escape of the list object
+	if a, ok := listObj.(*ssa.Alloc); ok {
+		for _, rr := range refs(a) {
+			switch x := rr.(type) {
+			case *ssa.FieldAddr, *ssa.DebugRef:
+			case *ssa.MakeInterface, *ssa.ChangeInterface:
+				for _, r2 := range refs(x.(ssa.Value)) {
+					if _, isCall := r2.(ssa.CallInstruction); !isCall {
+						return false, "the listed pods escape unfiltered"
+					}
+				}
+			case *ssa.Store:
+				if x.Val == ssa.Value(a) {
+					return false, "the listed pods escape unfiltered (stored)"
+				}
+			case *ssa.Return:
+				return false, "the listed pods are returned unfiltered"
+			case ssa.CallInstruction:
+				return false, "the listed pods are handed unfiltered to " + calleeName(x.Common())
+			}
+		}
+	} else {
+		return false, "listed pods are not filtered by owner reference"
+	}
+	n := 0
+	for _, c := range callsIn(fn) {
+		call, ok := c.(*ssa.Call)
+		if !ok {
+			continue
+		}
+		if bi, ok := call.Call.Value.(*ssa.Builtin); !ok || bi.Name() != "append" {
+			continue
+		}
+		elems, spread := appendedElems(call)
+		if spread != nil && fromItems(spread) {
+			return false, "the listed pods are appended wholesale"
+		}
+		for _, el := range elems {
+			if fromItems(el) {
+				n++
+				if !guarded(call) {
+					return false, "a listed pod is appended to the kept pods without the owner-reference test (Kind==\"DaemonSet\" ∧ Name==old-daemonset annotation)"
+				}
+			}
+		}
+	}
+	// the items may also leave through a return / store of a sub-slice
+	for _, b := range fn.Blocks {
+		for _, in := range b.Instrs {
+			switch x := in.(type) {
+			case *ssa.Return:
+				for _, rv := range x.Results {
+					if _, isSlice := rv.Type().Underlying().(*types.Slice); isSlice && fromItems(rv) && len(appendCallsOf(rv)) == 0 {
+						return false, "the listed items are returned unfiltered"
+					}
+				}
+			}
+		}
+	}
+	if n == 0 {
+		return false, "listed pods are not filtered by owner reference"
+	}
+	return true, ""
+}
+
+// foundElementSatisfies: v reads a field of s[i] where i is the result of slices.IndexFunc(s, pred)
+// (or a helper with that contract is not assumed): every true-alternative of pred satisfies want.
+func foundElementSatisfies(p *Prog, fn *ssa.Function, v ssa.Value, want func(factSet) bool) bool {
+	u, ok := v.(*ssa.UnOp)
+	if !ok || u.Op != token.MUL {
+		return false
+	}
+	var ia *ssa.IndexAddr
+	addr := u.X
+	for i := 0; i < 4 && ia == nil; i++ {
+		switch x := addr.(type) {
+		case *ssa.FieldAddr:
+			addr = x.X
+		case *ssa.IndexAddr:
+			ia = x
+		default:
+			return false
+		}
+	}
+	if ia == nil {
+		return false
+	}
+	call, ok := unwrap(ia.Index).(*ssa.Call)
+	if !ok || !strings.HasPrefix(calleeName(&call.Call), "slices.IndexFunc") || len(call.Call.Args) != 2 {
+		return false
+	}
+	k := newKeyer(fn)
+	if k.key(call.Call.Args[0]) != k.key(ia.X) {
+		return false
+	}
+	var pred *ssa.Function
+	switch f := call.Call.Args[1].(type) {
+	case *ssa.MakeClosure:
+		pred, _ = f.Fn.(*ssa.Function)
+	case *ssa.Function:
+		pred = f
+	}
+	if pred == nil || len(pred.Blocks) == 0 {
+		return false
+	}
+	alts := p.funcTrueAlternatives(pred, 0)
+	if len(alts) == 0 {
+		return false
+	}
+	for _, a := range alts {
+		if !want(a) {
+			return false
+		}
+	}
+	return true
 }
